@@ -100,6 +100,7 @@ type outcome struct {
 	initial  []absRing
 	factors  []int
 	deadlock bool
+	skipped  bool // procs mode: the children could not all be started in time (machine overloaded): no verdict
 	panics   []string
 	w        *world
 	sc       scenario
